@@ -601,12 +601,29 @@ def _fields(repo, rep):
             "suffix" in src(t_) and "None" in src(t_)
             for t_, v_ in L.guards_of(n, mt.node)
             if not isinstance(t_, ast.ExceptHandler))]
+        # ... on every way out of the function (an early return for end
+        # tags skips it exactly for the tokens it exists for)
+        from .. import paths as P_
+        around = []
+        for pth in P_.enum_paths(mt.node.body):
+            if pth[-1][0] not in ("return", "end"):
+                continue
+            passed = any(e[0] == "cond" and "suffix" in src(e[1]) and
+                         "None" in src(e[1]) for e in pth) or any(
+                e[0] == "assign" and e[1] == "d['suffix']" and
+                id(e[3]) not in inloop for e in pth)
+            if not passed:
+                around.append(pth[-1][-1].lineno if len(pth[-1]) > 1 else 0)
+        if around:
+            guarded = []
         rep.check(bool(guarded), "R03.3", mt.qualname, "when neither the "
                   "prefix pattern nor an attribute match supplies a suffix "
                   "(unterminated end tag followed by blanks), the rest of "
                   "the token is the suffix", construct="suffix-total",
                   where=L.where(mt), detail="%d assignment(s) outside the "
-                  "attribute loop" % len(tail))
+                  "attribute loop%s" % (len(tail), "; return at line %s does "
+                                        "not pass it" % around if around
+                                        else ""))
     # an end tag is dissected by the same function: what it yields as
     # 'attrs' must be emitted or rejected
     used = set()
